@@ -27,7 +27,11 @@ func (valenc bigIntEncoder) Encode(enc *Encoder, v interface{}) {
 }
 
 func (bigIntEncoder) Write(enc *Encoder, v interface{}) {
-	enc.WriteBigInt((*big.Int)(reflect2.PtrOf(v)))
+	if p := (*big.Int)(reflect2.PtrOf(v)); p == nil {
+		enc.WriteNil()
+	} else {
+		enc.WriteBigInt(p)
+	}
 }
 
 // bigFloatEncoder is the implementation of ValueEncoder for big.Float/*bit.Float.
@@ -38,7 +42,11 @@ func (valenc bigFloatEncoder) Encode(enc *Encoder, v interface{}) {
 }
 
 func (bigFloatEncoder) Write(enc *Encoder, v interface{}) {
-	enc.WriteBigFloat((*big.Float)(reflect2.PtrOf(v)))
+	if p := (*big.Float)(reflect2.PtrOf(v)); p == nil {
+		enc.WriteNil()
+	} else {
+		enc.WriteBigFloat(p)
+	}
 }
 
 // bigRatEncoder is the implementation of ValueEncoder for big.Rat/*bit.Rat.
@@ -49,7 +57,11 @@ func (valenc bigRatEncoder) Encode(enc *Encoder, v interface{}) {
 }
 
 func (bigRatEncoder) Write(enc *Encoder, v interface{}) {
-	enc.WriteBigRat((*big.Rat)(reflect2.PtrOf(v)))
+	if p := (*big.Rat)(reflect2.PtrOf(v)); p == nil {
+		enc.WriteNil()
+	} else {
+		enc.WriteBigRat(p)
+	}
 }
 
 // WriteBigFloat to encoder.
